@@ -89,6 +89,7 @@ func run(prop, tier, repo, verif, tags string, seed int, start time.Time) (code 
 		fmt.Printf("xpcheck: unknown property %q (have %v)\n", prop, ps)
 		return 3
 	}
+	w.curProp = prop
 	r := newReport(prop, tier, w)
 	if _, err := w.Census(); err != nil {
 		r.bad("ANCHOR", "census", "", err.Error())
